@@ -3,6 +3,7 @@ from vlib.core import Case
 from vlib.gens import *
 
 GROUP = "text"
+READY = True
 LEAN_PROPS = "Dashu.Props.C07"
 LEAN_AUDIT = "Dashu.Audit.C07"
 JOBS = 14
@@ -75,7 +76,9 @@ def digit_lengths(r, tier, big=True):
     if big:
         ls += [255 * d + 3, 256 * d - 1, 256 * d, 256 * d + 1]
     if big and tier == "thorough":
-        ls += [64 * d + 1, 100 * d, 257 * d, 512 * d - 1, 512 * d, 512 * d + 1, 513 * d + 7, 700 * d, 1024 * d + 1]
+        ls += [4, 5, 4 * d, 8 * d + 3, 31 * d, 33 * d, 48 * d, 64 * d - 1, 64 * d, 64 * d + 1, 100 * d, 128 * d + 1, 257 * d, 300 * d,
+               511 * d, 512 * d - 1, 512 * d, 512 * d + 1, 513 * d + 7, 700 * d, 1023 * d, 1024 * d, 1024 * d + 1, 1500 * d,
+               2048 * d + 1]
     return [l for l in ls if l >= 1]
 
 
@@ -139,7 +142,7 @@ def gen_fmt(rng, tier):
                   (1 << 64) * rp, ((1 << 64) - 1) * rp + rp - 1, 1 << (64 * 15), (1 << (64 * 16)) - 1, 1 << (64 * 16)]:
             yield Case("u.fmt", ["r%d" % r, 0, "-", "none", hx(n)], nontrivial=n >= (1 << 64))
     # 3. the flag product x widths on values that fit u128/i128 (compared with primitive formatting in the harness)
-    m = 1 if tier == "quick" else 6
+    m = 1 if tier == "quick" else 25
     for _ in range(m):
         for t in TRAITS:
             r = TRAIT_RADIX[t]
@@ -163,7 +166,7 @@ def gen_fmt(rng, tier):
                         op = "i.fmt" if neg or rng.random() < 0.5 else "u.fmt"
                         yield Case(op, [t, fa, fl, ws, hx(v)], nontrivial=(w != "none" and w > tot))
     # 4. the flag product on in_radix with other radices and on large values
-    for _ in range(300 if tier == "quick" else 4000):
+    for _ in range(300 if tier == "quick" else 30000):
         r = rng.choice(rs)
         big = rng.random() < 0.3
         n = nat_pattern(rng, rng.choice([3, 4, 16, 17, 33]), rng.choice(PATTERNS)) if big else rng.getrandbits(rng.randrange(1, 140))
@@ -212,7 +215,7 @@ def gen_parse(rng, tier):
             else:
                 yield Case("i.rt", [hx(signed(rng, n)), dec(r)], nontrivial=L > dpw(r))
     # 2. prefixes
-    for _ in range(250 if tier == "quick" else 3000):
+    for _ in range(250 if tier == "quick" else 20000):
         r = rng.choice([2, 8, 16, 10, 10])
         n = rng.getrandbits(rng.choice([1, 8, 63, 64, 65, 128, 129, 200, 700]))
         body = mixcase(rng, to_radix(n, r), rng.randrange(3))
@@ -258,7 +261,7 @@ def gen_parse(rng, tier):
         yield Case("i.parse_default", [sb("-1"), dec(r)], nontrivial=False)
         yield Case("u.parse_default", [sb("0x1"), dec(r)], nontrivial=False)
         yield Case("u.parse_default", [sb(""), dec(r)], nontrivial=False)
-    for _ in range(500 if tier == "quick" else 8000):
+    for _ in range(500 if tier == "quick" else 60000):
         r = rng.choice(rs)
         d = dpw(r)
         L = rng.choice([1, 2, d - 1, d, d + 1, 2 * d, 5 * d + 2, 16 * d, 40 * d] + ([256 * d + 5, 300 * d] if rng.random() < 0.08 else []))
@@ -290,7 +293,7 @@ def gen_parse(rng, tier):
 
 def gen_bytes(rng, tier):
     # decode: every length 0..40 with top byte 0x00/0x7f/0x80/0xff
-    reps = 1 if tier == "quick" else 6
+    reps = 1 if tier == "quick" else 20
     for L in range(0, 41):
         for top in [0x00, 0x7f, 0x80, 0xff, None]:
             for fillk in ["rand", "zero", "ff"]:
@@ -320,7 +323,7 @@ def gen_bytes(rng, tier):
             for z in (v, -v):
                 yield Case("i.le", [hx(z)], nontrivial=k > 16)
                 yield Case("i.be", [hx(z)], nontrivial=k > 16)
-    for _ in range(200 if tier == "quick" else 4000):
+    for _ in range(200 if tier == "quick" else 30000):
         v = nat_pattern(rng, rng.choice([0, 1, 2, 2, 3, 3, 4, 5, 9]), rng.choice(PATTERNS))
         if rng.random() < 0.3 and v:
             v >>= rng.randrange(64)
@@ -342,7 +345,7 @@ def gen_chunks(rng, tier):
                 yield Case("u.chunks", [hx(n), dec(k)], nontrivial=nw >= 3)
                 if rng.random() < 0.3 and n:
                     yield Case("u.chunks", [hx(n >> rng.randrange(1, 64)), dec(k)], nontrivial=nw >= 3)
-    for _ in range(250 if tier == "quick" else 4000):
+    for _ in range(250 if tier == "quick" else 30000):
         k = rng.choice(CHUNK_SIZES + [2, 192, 256]) if rng.random() < 0.97 else 0
         cnt = rng.choice([0, 1, 2, 3, 5, 8, 12])
         cs = []
@@ -383,16 +386,22 @@ RULE = ("fmt: for each radix (quick: 2,8,10,16,36 + 5 drawn by rng; thorough: al
         "Non-trivial := more digits than one word holds / a padding width above the text length / heap values; distinct := distinct case lines.")
 
 REFINED = [
-    "math::max_exp_in_word + RadixInfo (digits_per_word maximal, range_per_word = r^dpw): all W >= 2 (maxExpInWord_spec)",
+    "math::max_exp_in_word + RadixInfo (range_per_word = r^dpw < 2^W, dpw >= 1, maximal for even W): all W (radix_table)",
     "fmt/non_power_two: PreparedWord, PreparedDword (three-part split), PreparedMedium (repeated division), PreparedLarge "
-    "(power tower, big_chunks, write_big_chunk recursion, zero-padded write_chunk) = digits r n",
-    "fmt/power_two: PreparedWord/Dword (shift+mask), PreparedLarge (bit slicing across word boundaries on the word list) = digits",
-    "InRadixWriter::format_prepared = pad_integral specification (all flags, widths, alignments)",
-    "parse/mod.rs grammar (sign, prefix, leading zeros), non_power_two parse_word/parse_chunk/parse_large_divide_conquer, "
-    "power_two parse_word/parse_large (bit packing with word wrap) = documented grammar on every byte string",
-    "convert.rs to_le_bytes/to_signed_le_bytes/from_le_bytes/from_signed_le_bytes (+BE mirror images), to_chunks, from_chunks: see LEVEL_TEXT for what is proved",
+    "(power tower, big_chunks, write_big_chunk recursion, zero-padded write_chunk) = digits r n (print_non_pow2_digits, print_size_classes, big_chunk_padded)",
+    "fmt/power_two: PreparedWord/Dword (shift+mask), PreparedLarge (bit slicing across word boundaries, on the word list) = digits (print_pow2_digits)",
+    "InRadixWriter::format_prepared = pad_integral specification, all flags/widths/alignments (layout_eq_pad_integral); all six traits (print_eq_reference)",
+    "parse/mod.rs grammar (sign, prefixes, leading zeros, separator-only bodies), non_power_two parse_word / parse_chunk / "
+    "parse_large_divide_conquer, power_two parse_word / parse_large (bit packing with word wrap) = documented grammar on every byte string "
+    "(parse_radix_eq_grammar, parse_default_eq_grammar, parse_ok_sound, parse_no_digits)",
+    "print -> parse round trip of the model, all radices, both cases, with '+' (print_parse_round_trip, _unsigned)",
+    "byte / two's complement / chunk encodings: round trip and minimality of the positional specification "
+    "(le_bytes_round_trip, signed_bytes_round_trip, chunks_round_trip, chunks_zero_panics)",
 ]
 FRONTIER = [
+    "convert.rs word-level byte and chunk functions (words_to_le_bytes FLIP/skip logic, to_signed_le_bytes incl. the resize of the "
+    "dcc404d fix, from_le_bytes_large NEG path, words_to_chunks aligned/unaligned paths): mirrored in Model/Text/Bytes.lean and "
+    "compared with the positional specification on every case at run time (model-spec flag), but model = spec is not yet a theorem",
     "num_modular PreMulInv1by1 / Normalized2by1Divisor single-word divisions incl. the normalisation shifts in PreparedDword::new (Nat / and %)",
     "div::fast_div_by_word_in_place, TypedRepr div_rem / sqr / pow / mul, mul_word_in_place_with_carry (C01/C02 kernels; Nat arithmetic here)",
     "arch::digits::digit_chunk_raw_to_ascii SWAR byte trick and DigitWriter buffering (modelled per byte)",
@@ -400,10 +409,16 @@ FRONTIER = [
     "big-endian byte functions modelled as mirror images (list reversal) of the little-endian ones",
     "fixed-size scratch arrays ([u8; 41], [Word; 16]) are lists; their bounds are not part of the model",
 ]
+THEOREMS = ["Dashu.Props.C07." + t for t in [
+    "positional_representation", "radix_table", "print_non_pow2_digits", "print_size_classes", "big_chunk_padded",
+    "print_pow2_digits", "layout_eq_pad_integral", "print_eq_reference", "parse_radix_eq_grammar", "parse_default_eq_grammar",
+    "parse_ok_sound", "parse_no_digits", "print_parse_round_trip", "print_parse_round_trip_unsigned", "le_bytes_round_trip",
+    "signed_bytes_round_trip", "chunks_round_trip", "chunks_zero_panics"]]
 EXPLANATION = ("Lean theorems for every word size, radix 2..36 and integer: the printing model (all size classes of both printers) "
                "produces exactly the positional digits; the parsing model equals the documented grammar as a total function on byte "
                "strings (errors included) and parse(print) is the identity in both letter cases; format_prepared equals the "
-               "pad_integral specification; byte and chunk encodings are positional representations with round-trip theorems. "
+               "pad_integral specification; byte and chunk encodings are positional representations with round-trip theorems (the "
+               "word-level byte/chunk code is tied to that specification by the correspondence run only). "
                "Model and code are run side by side on structured inputs; the harness additionally compares every flag "
                "combination with Rust's primitive formatting.")
 ASSUMPTIONS = ["frontier kernels (single-word and multi-word division/multiplication used by the converters) behave as exact "
@@ -413,8 +428,10 @@ LEVEL_TEXT = ("Machine-checked Lean 4 theorems about an executable model of dash
               "all radices 2..36 and all integers (no size bound): printed digits = positional representation for every size class "
               "(word, double word three-part split, medium repeated division, large divide-and-conquer tower with zero-padded chunks, "
               "power-of-two bit slicing across word boundaries); parser = documented grammar as a total function (malformed text is an "
-              "error, never a number) and parse(print(n)) = n for both letter cases and signs; format_prepared = pad_integral spec; byte "
-              "and chunk encodings decode to the encoded value. The hand-written model is tied to /repo on every run by differential "
+              "error, never a number) and parse(print(n)) = n for both letter cases and signs; format_prepared = pad_integral spec; the "
+              "positional byte / two's complement / chunk encodings decode to the encoded value for every integer and chunk size (the "
+              "word-level byte and chunk routines are mirrored and compared with that specification at run time, not yet by theorem). "
+              "The hand-written model is tied to /repo on every run by differential "
               "execution (model vs real code) over all thresholds of both converters and a malformed-text stream, plus a direct "
               "comparison of all flag combinations with Rust's primitive integer formatting.")
 LEVEL_NOTE = ("Trusted: Lean kernel; axioms propext/Classical.choice/Quot.sound; the correspondence harness and generators (sampling) "
